@@ -503,7 +503,10 @@ func (ch *channel) handlePacket(packet []byte) error {
 		default:
 		}
 	default:
-		ch.msg <- msg
+		// Not a message of the connection protocol. Forwarding it to
+		// ch.msg, where nobody expects it, would eventually block the mux
+		// read loop for good once the buffer is full.
+		return fmt.Errorf("ssh: unexpected message %T for channel", msg)
 	}
 	return nil
 }
